@@ -40,6 +40,7 @@ func main() {
 		},
 		PerRunTimeout: 60 * time.Second,
 		WorkerEnv:     []string{"GORACE=halt_on_error=0 exitcode=0 atexit_sleep_ms=0 suppress_equal_stacks=0 suppress_equal_addresses=0 log_path=" + dir + "/race"},
+		ShrinkMax:     map[string]int{"C11": 60},
 		Extra:         taskprops.Extra,
 	})
 }
